@@ -103,7 +103,7 @@ func c46Jobs(thorough bool, dir string, noPoll map[string]bool) []Job {
 		add(Params{Remote: remote, N: 17, Fail: 1<<3 | 1<<16, Variant: "plain", Cache: remote}, b, 0)
 		js[len(js)-1].Deviation = true // 20 symmetric threads: deviation bounding instead of preemption bounding
 		if thorough {
-			js[len(js)-1].Shards = 8
+			js[len(js)-1].Shards = 16
 		}
 	}
 	for n := 3; n >= 1; n-- {
